@@ -159,10 +159,14 @@ def _run_event(ev):
     cres = canon(res)
     if canon(mine) != before:
         return ('ok', cres), 'arguments were modified by the call'
+    if isinstance(res, (list, dict)) and any(res is a for a in mine):
+        return ('ok', cres), 'the call returned the very object it was given as an argument (the caller cannot modify one without the other)'
     if not mutate and isinstance(res, (list, dict)):
         _LIVE.append((name, res, cres))
     if mutate:
         _mutate(res)
+        if canon(mine) != before:
+            return ('ok', cres), 'modifying the returned value changed the argument: the result shares structure with the argument'
         mine2 = copy.deepcopy(args)
         try:
             res2 = fn(*mine2)
